@@ -9,6 +9,17 @@ use serde_json::{json, Value};
 use std::panic::{catch_unwind, AssertUnwindSafe};
 
 mod fam;
+mod fam2;
+
+/// candidates of both family groups; `run` dispatches on the candidate's `call`
+fn candidates(prop: &str) -> Vec<Value> { let mut v = fam::candidates(prop); v.extend(fam2::candidates(prop)); v }
+fn run(c: &Value) -> Option<String> {
+    match guarded(|| fam2::run(c)) {
+        Ok(Some(o)) => o,
+        Ok(None) => fam::run(c),
+        Err(p) => Some(format!("panicked: {}", p)),
+    }
+}
 
 fn main() {
     let args: Vec<String> = std::env::args().collect();
@@ -19,11 +30,11 @@ fn main() {
     }
     match args[1].as_str() {
         "search" => {
-            let cands = fam::candidates(&args[2]);
+            let cands = candidates(&args[2]);
             let mut n = 0;
             for c in cands {
                 n += 1;
-                if let Some(obs) = fam::run(&c) {
+                if let Some(obs) = run(&c) {
                     println!("TRIED {}", n);
                     let mut c2 = c.clone();
                     c2["observed"] = json!(obs);
@@ -35,7 +46,7 @@ fn main() {
         }
         "replay" => {
             let c: Value = serde_json::from_str(&args[2]).expect("json");
-            match fam::run(&c) {
+            match run(&c) {
                 Some(obs) => println!("REPRODUCED: {} -> {}", c["call"], obs),
                 None => println!("NOT-REPRODUCED: {} behaves as the property requires on the current tree", c["call"]),
             }
